@@ -1,5 +1,6 @@
 import CasbinV.Proto
 import CasbinV.Model.Enforcer
+import CasbinV.Driver.EnforcerQ
 /-! driver family `enf` (stateful): the enforcer state machine (C04, C05, C09, C11, C15, C18, C20).
 
 `init <shape> <gCount> <g2Count> <adapter T/F> <watcher T/F> <ex T/F> <upd T/F> <p rules> <g rules> <g2 rules>`
@@ -116,7 +117,9 @@ def query (d : DSt) (s : St) (fs : List String) : Option String :=
     | none => some "!fuel"
   | ["implicitusers", perm] => do
     some (encList (sortStrs ((implicitUsersForPermission s (← decStrList perm)).map encStr)))
-  | _ => none
+  | ["flat", dom] => do
+    some (encBool (Casbin.Driver.EnfQ.flatQ d.shape s (← optDom dom)))
+  | _ => Casbin.Driver.EnfQ.queryQ d.shape s fs
 
 /-- reachable along at least one assignment, decided independently of the worklist loop: some direct role reaches
     the target within a bound that covers every simple path -/
@@ -142,6 +145,12 @@ def specQuery (s : St) (fs : List String) : Option String :=
     some (encList (sortStrs (((cands.filter fun x => !roles.contains x).filter fun x =>
       match enforceQ .rbac s (x :: perm) with | .ok true => true | _ => false).map encStr)))
   | _ => none
+
+/-- the specification of a query: the kinds of `Driver/EnforcerQ.lean` first (they need the shape) -/
+def specQueryX (d : DSt) (s : St) (fs : List String) : Option String :=
+  match Casbin.Driver.EnfQ.specQueryQ d.shape s fs with
+  | some x => some x
+  | none => specQuery s fs
 
 def mirror (s : St) : Bool :=
   [Sec.p, .g, .g2].all fun sec => canonRules (s.store.get sec) == canonRules (s.pol.get sec)
@@ -183,7 +192,7 @@ def step (d : DSt) (fs : List String) : DSt × String :=
       ({ d with st := s' }, "model=" ++ showRet r ++ "#" ++ joinC (da.map showACall) ++ "#" ++ joinC (dw.map showWCall) ++
         "#" ++ joinC (de.map showEv))
   | "q" :: rest =>
-    match query d d.st rest, (match specQuery d.st rest with | some x => some x | none => query d (fresh d.cfg d.st) rest) with
+    match query d d.st rest, (match specQueryX d d.st rest with | some x => some x | none => query d (fresh d.cfg d.st) rest) with
     | some a, some b => (d, "model=" ++ a ++ " spec=" ++ b)
     | _, _ => (d, "bad-op")
   | ["obs"] =>
